@@ -21,7 +21,10 @@ def byte_len(S, t):
     if k == "array":
         return len(t[1])
     if k == "bytes":
-        return None
+        return S.eng.lens.get(t)
+    if k == "concat":
+        from .sym import seq_len
+        return seq_len(t, S.eng.lens)
     if k == "slice_of" and t[2][0] == "int" and t[3][0] == "int":
         return t[3][1] - t[2][1]
     if k in ("copied", "refv"):
